@@ -87,6 +87,24 @@ def run(res):
             r = B.attempt(lambda: OBDD('zz & ' + ordering[0], list(ordering)))
             if not (isinstance(r, tuple) and r[1] == 'RuntimeError'):
                 h.notes.append('a variable outside the ordering did not raise RuntimeError: %r' % (r,))
+        # an ordering object of a ListOrdering SUBCLASS that overrides nothing is the same ordering
+        if k % 10 == 0:
+            from pyModelChecking.BDD.ordering import ListOrdering
+
+            class MyOrdering(ListOrdering):
+                pass
+            a = h.pool[0]
+            bsub = B.attempt(lambda: OBDD(B.render(e2), MyOrdering(list(ordering))))
+            if isinstance(bsub, tuple):
+                h.notes.append('OBDD(expr, <ListOrdering subclass instance>) raised %s' % bsub[1])
+            elif a is not None and h.pool[1] is not None:
+                for opn, op in (('&', lambda x, y: x & y), ('|', lambda x, y: x | y), ('^', lambda x, y: x ^ y)):
+                    r1, r2 = B.attempt(lambda: op(a, bsub)), B.attempt(lambda: op(a, h.pool[1]))
+                    if isinstance(r1, tuple) or isinstance(r2, tuple) or not (r1 == r2) or r1.root is not r2.root:
+                        h.notes.append('f %s g with g over an instance of a ListOrdering subclass (same list) gives %r, over the '
+                                       'plain list %r' % (opn, r1 if isinstance(r1, tuple) else 'a diagram', r2 if isinstance(r2, tuple) else 'a diagram'))
+                if not (bsub == h.pool[1]) or not (h.pool[1] == bsub):
+                    h.notes.append('the same expression over a ListOrdering subclass instance and over the plain list are not ==')
         h.close()
         hs.append(h)
     # scale: operands with thousands of nodes (14-22 variables); the result is compared with the expressions evaluated
